@@ -109,12 +109,18 @@ def sym_int_var(name, lo, hi):
 
 class SFloat(Sym):
     """a binary64 value known as exact-value + error bound"""
-    __slots__ = ('aff', 't', 'err', 'mag', 'note')
+    __slots__ = ('aff', '_t', 'err', 'mag', 'note', 'nearest')
     _pytype = float
+
+    @property
+    def t(self):
+        if self._t is None:
+            self._t = self.aff.term()      # the z3 term is built only when a solver query needs it
+        return self._t
 
     def __init__(self, aff=None, t=None, err=0, mag=None, note=None):
         self.aff = aff
-        self.t = t if t is not None else aff.term()
+        self._t = t
         self.err = Fraction(err)
         if mag is None:
             lo, hi = aff.bounds() if aff is not None else (None, None)
@@ -123,6 +129,7 @@ class SFloat(Sym):
             mag = max(abs(lo), abs(hi))
         self.mag = Fraction(mag)
         self.note = note
+        self.nearest = False       # True: the computed value is the double nearest to the exact value (integers are then exact)
 
     # -- construction ------------------------------------------------------------
     @classmethod
@@ -195,7 +202,9 @@ class SFloat(Sym):
     def __rsub__(self, o): return self._addsub(o, -1, True)
 
     def __neg__(self):
-        return SFloat(self.aff.scale(-1) if self.aff is not None else None, None if self.aff is not None else -self.t, self.err, self.mag)
+        r = SFloat(self.aff.scale(-1) if self.aff is not None else None, None if self.aff is not None else -self.t, self.err, self.mag)
+        r.nearest = self.nearest
+        return r
 
     def __pos__(self):
         return self
@@ -266,6 +275,9 @@ class SFloat(Sym):
         m_hi = (1 - off) / D                # smallest possible distance up to the next integer
         if self.err == 0:
             robust = True
+        elif self.nearest and self.mag < 2 ** 52:
+            # integers on the lattice are exactly representable; every other lattice point is >= 1/D from an integer
+            robust = (off == 0 or m_lo > self.err) and m_hi > self.err and Fraction(1, D) > self.err
         else:
             robust = (m_lo >= self.err and m_lo > 0 and m_hi > self.err) or (m_lo > self.err and m_hi > self.err)
         # r = floor(e):  r*Den <= Num < (r+1)*Den  with e = Num/Den, integer coefficients
@@ -337,6 +349,13 @@ class SFloat(Sym):
         err = self.err + o.err
         c = ctx()
         dt = (self.aff.add(o.aff, -1).term() if (self.aff is not None and o.aff is not None) else self.t - o.t)
+        if self.aff is not None and o.aff is not None:
+            lo, hi = self.aff.add(o.aff, -1).bounds()
+            if lo is not None:               # static interval pre-check: no solver call
+                if lo > err:
+                    return op in ('>', '>=', '!=')
+                if hi < -err:
+                    return op in ('<', '<=', '!=')
         if err == 0:
             return mkbool({'<': dt < 0, '<=': dt <= 0, '>': dt > 0, '>=': dt >= 0, '==': dt == 0, '!=': dt != 0}[op])
         E = z3.RealVal(str(err))
@@ -405,6 +424,31 @@ class SFloat(Sym):
 
     def _sym_str(self):
         return self._sym_repr()
+
+    def _sym_round(self, nd=None):
+        """round(x[, nd]): the multiple of 10^-nd nearest to the binary value (ties half-even); modelled as any integer R
+        with |R - e*10^nd| <= 1/2 + err*10^nd  (covers ties and the input error); the result is the double nearest R/10^nd"""
+        c = ctx()
+        n = 0 if nd is None else int(nd)
+        if n < 0:
+            raise OutOfSubset('round() to a negative number of digits')
+        c.assumptions.add('round(x, n) returns the double nearest to the decimal rounding of the binary value (CPython)')
+        sc = 10 ** n
+        R = c.fresh('rnd')
+        slack = z3.RealVal(str(Fraction(1, 2) + self.err * sc))
+        c.assume(z3.And(z3.ToReal(R) >= self.t * sc - slack, z3.ToReal(R) <= self.t * sc + slack))
+        lo = hi = None
+        if self.aff is not None:
+            lo, hi = self.aff.bounds()
+        if lo is None:
+            lo, hi = -self.mag, self.mag
+        declare_var(str(R), R, math.floor(lo * sc) - 1, math.ceil(hi * sc) + 1)
+        if nd is None:
+            return SInt(R)
+        r = SFloat(Aff(0, {str(R): Fraction(1, sc)}), None, 0)
+        r.err = r.mag * U
+        r.nearest = True
+        return r
 
     def _sym_repr(self):
         """repr(x) of a double known exactly (err = 0): shortest round-tripping text, positional iff 1e-4 <= |x| < 1e16.
